@@ -14,9 +14,9 @@ import (
 	"strings"
 
 	"github.com/attestantio/go-eth2-client/spec/phase0"
-	"github.com/dgraph-io/badger/v4"
 	specqbft "github.com/bloxapp/ssv-spec/qbft"
 	spectypes "github.com/bloxapp/ssv-spec/types"
+	"github.com/dgraph-io/badger/v4"
 
 	"github.com/bloxapp/ssv/eth/eventhandler"
 	beaconprotocol "github.com/bloxapp/ssv/protocol/v2/blockchain/beacon"
@@ -38,17 +38,18 @@ type blockRec struct {
 // session: one case = one database; every executed operation is written as an op line with the
 // implementation's observation.
 type session struct {
-	run    *hx.Run
-	emit   bool
-	dir    string // on-disk database directory ("" = in-memory Badger)
-	raw    basedb.Database
-	p      *proc
-	lines  []string
-	blocks []blockRec // blocks processed successfully or attempted, in order (cause analysis)
-	retry  bool       // a `fault retry` happened: memory/database divergence is measured, not judged
-	okCnt  int
-	base   map[int]int // owner -> nonce expected next when the case started / the recipient was seeded
-	adds   map[int]int // owner -> parsed ValidatorAdded events processed since then
+	run     *hx.Run
+	emit    bool
+	dir     string // on-disk database directory ("" = in-memory Badger)
+	raw     basedb.Database
+	p       *proc
+	lines   []string
+	blocks  []blockRec // blocks processed successfully or attempted, in order (cause analysis)
+	retry   bool       // a `fault retry` happened: memory/database divergence is measured, not judged
+	okCnt   int
+	faulted bool        // a crash / error fault fired in this session
+	base    map[int]int // owner -> nonce expected next when the case started / the recipient was seeded
+	adds    map[int]int // owner -> parsed ValidatorAdded events processed since then
 }
 
 func (s *session) out(op, obs string) {
@@ -263,6 +264,7 @@ func (s *session) fault(kind string, atReal, atModel, kmAt int, num uint64, evs 
 	hit, prev := c.hitKind, c.prevKind
 	if fired {
 		lastFault = faultInfo{hit, prev}
+		s.faulted = true
 	}
 	c.clearFault()
 	s.blocks = append(s.blocks, blockRec{num, evs})
@@ -288,7 +290,7 @@ func (s *session) fault(kind string, atReal, atModel, kmAt int, num uint64, evs 
 
 // oracle "the nonce counts every add attempt exactly once" (mod 2^16), evaluated on the stored recipients
 func (s *session) checkNonces(when, dbv string) {
-	if s.retry {
+	if s.retry || s.faulted { // after a fault the C12 oracle (final state = uninterrupted run) judges, nonces included
 		return
 	}
 	i := strings.Index(dbv, "]R[")
@@ -498,7 +500,6 @@ func caseC11(run *hx.Run, r *hx.Rng, caseNo int) {
 	sa.close()
 	sb.close()
 }
-
 
 // ---------------------------------------------------------------------------------------------- C12
 
